@@ -430,12 +430,12 @@ var pureFuncs = map[string]bool{
 	"sigs.k8s.io/controller-runtime/pkg/client.ObjectKeyFromObject": true,
 	"builtin:len": true,
 	"builtin:cap": true,
-	"k8s.io/apimachinery/pkg/api/errors.IsNotFound":      true,
-	"k8s.io/apimachinery/pkg/api/errors.IsAlreadyExists": true,
-	"k8s.io/apimachinery/pkg/api/errors.IsConflict":      true,
-	"k8s.io/apimachinery/pkg/api/meta.IsNoMatchError":    true,
-	"k8s.io/apimachinery/pkg/api/meta.IsStatusConditionTrue": true,
-	"k8s.io/apimachinery/pkg/api/meta.FindStatusCondition":   true,
+	"k8s.io/apimachinery/pkg/api/errors.IsNotFound":                                  true,
+	"k8s.io/apimachinery/pkg/api/errors.IsAlreadyExists":                             true,
+	"k8s.io/apimachinery/pkg/api/errors.IsConflict":                                  true,
+	"k8s.io/apimachinery/pkg/api/meta.IsNoMatchError":                                true,
+	"k8s.io/apimachinery/pkg/api/meta.IsStatusConditionTrue":                         true,
+	"k8s.io/apimachinery/pkg/api/meta.FindStatusCondition":                           true,
 	"sigs.k8s.io/controller-runtime/pkg/controller/controllerutil.ContainsFinalizer": true,
 	"k8s.io/utils/ptr.To": true,
 }
